@@ -57,7 +57,7 @@ Theorem C01_tagged_top :
     accepts g (copy_cfg defaultConcurrency opt refpusher mount root cached0) d0 tr = Some st ->
     returned st = Some true ->
     tags_after tags0 (eff_ref srcRef dstRef) st (eff_ref srcRef dstRef) = Some root.
-Proof. intros g. exact (copy_tagged_lemma g defaultConcurrency). Qed.
+Proof. exact (fun g => copy_tagged_lemma g defaultConcurrency). Qed.
 Print Assumptions C01_tagged_top.
 
 Theorem C01_blank_reference : forall srcRef, eff_ref srcRef [] = srcRef.
@@ -84,6 +84,20 @@ Theorem C01_tagged_refuted_for_mounted_blob_root_prefix :
     c_mode c <> MGraph /\ tag st <> Some (c_root c).
 Proof. exact tagged_refuted_for_mounted_blob_root. Qed.
 Print Assumptions C01_tagged_refuted_for_mounted_blob_root_prefix.
+
+(* F12 does not need a pre-populated destination: EMPTY digest-keyed destination, source
+   graph in which a manifest's bytes also occur as a (reachable) blob; the blob is pushed
+   first, Exists(manifest) then answers true.  So [mt_consistent] is a restriction of the
+   property's quantifier over SOURCE graphs ("same bytes under two media types" is covered
+   only when both descriptors have the same successors, e.g. both are blobs) for digest-keyed
+   destinations -- known finding twin-digest-exists. *)
+Theorem C01_closure_refuted_in_call :
+  exists g c tr st,
+    closed_nodes g [] /\ accepts g c [] tr = Some st /\ returned st = Some true /\
+    tag st = Some (c_root c) /\
+    exists n, reach g (c_root c) n /\ has g (dst st) n = false.
+Proof. exact closure_refuted_in_call. Qed.
+Print Assumptions C01_closure_refuted_in_call.
 
 (* hypotheses are satisfiable: a concrete 4-node run (shared blob, duplicate successor,
    one node already present, Tagger destination) *)
@@ -147,7 +161,7 @@ Example C01_example_default_options :
     accepts_opt (fun _ => false) g_ex c_ex [0; 1; 2; 3] [ExB 3; ExE 3 true; TagB 3; TagE 3; Ret true]
       = Some (st, full) /\
     returned st = Some true /\ tag st = Some 3 /\ In (Cb CSkip 3) full.
-Proof. eexists. eexists. split; [vm_compute; reflexivity|]. repeat split; simpl; auto. Qed.
+Proof. exact example_default_options. Qed.
 
 (* WithTargetPlatform on a manifest list (platform.SelectManifest / Match, modelled in
    Model/CopyTop.v and compared with the implementation on every generated platform case):
@@ -167,3 +181,18 @@ Theorem C01_platform_no_match :
     forall m q, In (m, q) entries -> plat_match q want = false.
 Proof. exact select_manifest_none. Qed.
 Print Assumptions C01_platform_no_match.
+
+(* satisfiable also for: ReferencePusher with the root already present (re-push with the reference),
+   a Mounter destination that mounts the (blob) root and tags it, and two roots (ExtendedCopyGraph) *)
+Example C01_examples_refpusher_mount_tworoots :
+  (exists st, accepts g_ex (mkCfg 2 MRefPush 3 false true [] []) [0; 1; 2; 3]
+                [ExB 3; ExE 3 true; SFB 3; SFE 3; PuB 3 true; PuE 3 true PExists; SFC 3; Ret true] = Some st /\
+              returned st = Some true /\ tag st = Some 3) /\
+  (exists st, accepts g_blob (mkCfg 3 MTagger 0 true true [] []) []
+                [ExB 0; ExE 0 false; Cb CMountFrom 0; MtB 0; MtE 0 MMounted; Cb CMounted 0;
+                 TagB 0; TagE 0; Ret true] = Some st /\
+              returned st = Some true /\ tag st = Some 0 /\ present_nodes g_blob (dst st) = [0]) /\
+  (exists st, accepts g_ex (mkCfg 2 MGraph 3 false true [] [2]) [0; 1; 2; 3]
+                [ExB 3; ExE 3 true; Cb CSkip 3; ExB 2; ExE 2 true; Cb CSkip 2; Ret true] = Some st /\
+              returned st = Some true).
+Proof. exact example_runs_more. Qed.
